@@ -27,7 +27,9 @@ META = {
             'implementation of random.sample / random.shuffle meeting their contracts: min(N, M) requests, all from the '
             'unlimited list, distinct, summaries (pruned by root) cover the kept requests and add nothing, permutation '
             'without a cutting limit, prefix of the unlimited order with randomisation off.  On the real service: every '
-            'limit 1..M+1 under both settings and several seeds; identical repeated responses with randomisation off.',
+            'limit 1..M+1 under both settings and several seeds; identical repeated responses with randomisation off.  The two tests of '
+            'limit_results are generated (Gen.limitApplies, shuffleWhenUnlimited) and proved to be the model\'s; the translator refuses '
+            'to run when the list expressions of the function are not the ones the model was written for.',
     'level_note': 'trusted: Lean kernel, the contracts of random.sample / random.shuffle.  The order of the unlimited list '
                   'is a parameter of the theorems; its determinism is observed within one process and across interpreters '
                   'with different PYTHONHASHSEED (finding K).',
